@@ -1232,7 +1232,7 @@ class MindsDBParser(Parser):
         if hasattr(p, 'identifier'):
             entity.alias = p.identifier
         if hasattr(p, 'dquote_string'):
-            entity.alias = Identifier(p.dquote_string)
+            entity.alias = self.string_to_identifier(p.dquote_string)
         return entity
 
     # native query
@@ -1316,9 +1316,9 @@ class MindsDBParser(Parser):
         # if col.alias:
         #     raise ParsingException(f'Attempt to provide two aliases for {str(col)}')
         if hasattr(p, 'dquote_string'):
-            alias = Identifier(p.dquote_string)
+            alias = self.string_to_identifier(p.dquote_string)
         elif hasattr(p, 'quote_string'):
-            alias = Identifier(p.quote_string)
+            alias = self.string_to_identifier(p.quote_string)
         else:
             alias = p.identifier
         col.alias = alias
@@ -1735,6 +1735,8 @@ class MindsDBParser(Parser):
         elif isinstance(p[2], int):
             node.parts.append(str(p[2]))
         elif isinstance(p[2], str):
+            if p[2] == '':
+                raise ParsingException('Identifier can not be an empty string')
             node.parts.append(p[2])
         else:
             node.parts += p[2].parts
@@ -1745,9 +1747,19 @@ class MindsDBParser(Parser):
     def string(self, p):
         return p[0]
 
-    @_('id', 'dquote_string')
+    @_('id')
     def identifier(self, p):
         value = p[0]
+        return Identifier.from_path_str(value)
+
+    @_('dquote_string')
+    def identifier(self, p):
+        return self.string_to_identifier(p[0])
+
+    def string_to_identifier(self, value):
+        # a name written as a quoted string
+        if value == '':
+            raise ParsingException('Identifier can not be an empty string')
         return Identifier.from_path_str(value)
 
     @_('PARAMETER')
